@@ -1261,3 +1261,32 @@ impl<const N: usize> DatagramPacketCodec<'_, N> {
             }
         }
     }
+
+//@@ octo-squirrel/src/codec/shadowsocks/aead_2022/udp.rs:21-28  fn nonce_length  sha=dfb9590ac15c2102
+fn a22udp__nonce_length(kind: CipherKind) -> usize {
+    match kind {
+        CipherKind::Aead2022Blake3Aes128Gcm | CipherKind::Aead2022Blake3Aes256Gcm => 0,
+        CipherKind::Aead2022Blake3ChaCha8Poly1305 => 24,
+        CipherKind::Aead2022Blake3ChaCha20Poly1305 => 24,
+        _ => verif_panic(),
+    }
+}
+
+//@@ octo-squirrel/src/codec/shadowsocks/aead_2022/udp.rs:30-46  fn new_cipher  sha=024f06d68781379f
+fn a22udp__new_cipher(kind: CipherKind, key: &[u8], session_id: u64) -> CipherMethod {
+    match kind {
+        CipherKind::Aead2022Blake3Aes128Gcm | CipherKind::Aead2022Blake3Aes256Gcm => {
+            let key = a22__session_sub_key(key, &session_id.v_to_be_bytes());
+            CipherMethod::new(kind, &key)
+        }
+        CipherKind::Aead2022Blake3ChaCha8Poly1305 => {
+            let key = &key[..32];
+            CipherMethod::XChaCha8Poly1305(XChaCha8Poly1305::new(Key::<XChaCha8Poly1305>::from_slice(key)))
+        }
+        CipherKind::Aead2022Blake3ChaCha20Poly1305 => {
+            let key = &key[..32];
+            CipherMethod::XChaCha20Poly1305(XChaCha20Poly1305::new(Key::<XChaCha20Poly1305>::from_slice(key)))
+        }
+        _ => verif_panic(),
+    }
+}
